@@ -115,9 +115,14 @@ def subnetsOf (ps : List Pool) (ip : Nat) : List Subnet :=
 
 def configured (ps : List Pool) (ip : Nat) : Bool := ps.any (fun p => p.has ip)
 
+/-- first occurrence wins -/
+def dedupNat : List Nat → List Nat
+  | [] => []
+  | x :: t => x :: (dedupNat t).filter (· ≠ x)
+
 /-- every configured address once, in pool order then walk order -/
 def allIPs (ps : List Pool) : List Nat :=
-  (ps.flatMap (fun p => (enumRanges p.ranges).filter p.has)).eraseDups
+  dedupNat (ps.flatMap (fun p => (enumRanges p.ranges).filter p.has))
 
 /-- `NodeSubnet(nodeIP)`: first (pool order, subnet order) configured node subnet containing the node address -/
 def nodeSubnetOf (ps : List Pool) (nodeIP : Nat) : Option Subnet :=
@@ -202,7 +207,7 @@ deriving DecidableEq, Repr, Inhabited
 structure Pod where
   ns : String
   name : String
-  uid : Uid
+  uid : Nat                          -- pod UID (0 = "")
   kind : Kind
   app : String                      -- owner name (deployment name for ReplicaSet owners); ignored for bare pods
   pool : String                     -- annotation tke.cloud.tencent.com/eni-ip-pool
@@ -233,7 +238,7 @@ structure Rec where
   key : Key
   policy : Nat
   node : String
-  uid : Uid
+  uid : Nat                          -- pod UID (0 = "")
   reserved : Bool := false
   ts : Nat := 0
 deriving DecidableEq, Repr, Inhabited
@@ -241,7 +246,7 @@ deriving DecidableEq, Repr, Inhabited
 structure Attr where
   policy : Nat := 0
   node : String := ""
-  uid : Uid := 0
+  uid : Nat := 0
 deriving DecidableEq, Repr, Inhabited
 
 structure Event where
@@ -504,13 +509,16 @@ def allocateInSubnetsAndRanges (s : State) (key : Key) (n : Subnet) (rss : List 
       let c := createAll s r [] picks
       if !c.2 then (c.1, .err "store") else (memAllocAll c.1 r picks, .ok)
 
+/-- the address is stored under the key -/
+def ownsB (s : State) (k : Key) (ip : IP) : Bool :=
+  match s.alloc.get ip with
+  | some r => r.key = k
+  | none => false
+
 /-- `ByKeyAndIPRanges` -/
 def byKeyAndRanges (s : State) (key : Key) (rss : List (List (Nat × Nat))) : List (Option IP) :=
   if rss.isEmpty then (ipsOfKey s key).map some
-  else rss.map (fun rs => (enumRanges rs).find? (fun ip =>
-    match s.alloc.get ip with
-    | some r => r.key = key
-    | none => false))
+  else rss.map (fun rs => (enumRanges rs).find? (ownsB s key))
 
 /-- `NodeSubnetsByIPRanges` -/
 def nodeSubnetsByRanges (s : State) (rss : List (List (Nat × Nat))) : List Subnet :=
@@ -535,17 +543,23 @@ def toHInfo (s : State) (ip : IP) : HInfo :=
   | some p => { ip := ip, bits := p.bits, gw := p.gateway, vlan := p.vlan }
   | none => { ip := ip, bits := 0, gw := 0, vlan := 0 }
 
+/-- memory right after the rebuild of `allocatedFIPs` from the listed store objects -/
+def confBase (s : State) (ps : List Pool) : State :=
+  { s with pools := ps, alloc := s.store.filter (fun e => configured ps e.1) }
+
+/-- stored objects whose address is no longer configured -/
+def confDrop (s : State) (ps : List Pool) : List IP := (s.store.filter (fun e => !configured ps e.1)).map (·.1)
+
+/-- the rebuilt unallocated table -/
+def confFree (s : State) (ps : List Pool) : List IP :=
+  (allIPs ps).filter (fun ip => (Tbl.get (s.store.filter (fun e => configured ps e.1)) ip).isNone)
+
 /-- `ConfigurePool` (lists under the lock: atomic) -/
 def configurePool (s : State) (pools : List Pool) : State × Bool :=
-  let ps := sortPools pools
   let c := s.api                               -- listFloatingIPs
   if c.2 then (c.1, false)
-  else
-    let s1 := c.1
-    let keep : Tbl IP Rec := s1.store.filter (fun e => configured ps e.1)
-    let drop := (s1.store.filter (fun e => !configured ps e.1)).map (·.1)
-    let s2 := deleteAll { s1 with pools := ps, alloc := keep } drop
-    ({ s2 with free := (allIPs ps).filter (fun ip => (keep.get ip).isNone) }, true)
+  else ({ deleteAll (confBase c.1 (sortPools pools)) (confDrop c.1 (sortPools pools)) with
+            free := confFree c.1 (sortPools pools) }, true)
 
 /-! ## Plugin helpers (`floatingip_plugin.go`, `resync.go`, `statefulset.go`, `deployment.go`) -/
 
@@ -688,46 +702,58 @@ def pickFirst (infos : List (Option IP)) (first : Option IP) : Option IP :=
     | [some ip] => some ip
     | _ => none
 
+/-- `allocateDuringFilter`: re-key a reserved address of the deployment / pool, or take a free one -/
+def allocateDuringFilter (s : State) (k : Key) (resv : Bool) (n : Subnet) (a : Attr) (pick : Option IP) : State × Res :=
+  if resv then allocateInSubnetWithKey s k.poolPrefix k n a pick else allocateInSubnet s k n a pick
+
+/-- second half of `getSubnet`: policy check, available subnets, allocation during filter -/
+def getSubnetCont (s : State) (pod : Pod) (ch : Choice) (rss : List (List (Nat × Nat))) (hasAlloc : Bool)
+    (allocated : List Subnet) : State × Except Res (List Subnet) :=
+  if policyOf pod ≠ 0 ∧ !supportReserve (keyOf pod) (policyOf pod) then (s, .error (.err "policy-unsupported"))
+  else
+    match getAvailableSubnet s (keyOf pod) (policyOf pod)
+        (if (keyOf pod).isDp then getDpReplicas s (keyOf pod) else (0, false)).1
+        (if (keyOf pod).isDp then getDpReplicas s (keyOf pod) else (0, false)).2 rss with
+    | .error c => (s, .error (.err c))
+    | .ok (set0, resv) =>
+      if (resv || (if (keyOf pod).isDp then getDpReplicas s (keyOf pod) else (0, false)).2) &&
+          !(if hasAlloc then sinter set0 allocated else set0).isEmpty then
+        match sminStr (if hasAlloc then sinter set0 allocated else set0) with
+        | none => (s, .ok (if hasAlloc then sinter set0 allocated else set0))
+        | some n =>
+          match (allocateDuringFilter s (keyOf pod) resv n
+              { policy := policyOf pod, node := "", uid := pod.uid } ch.pick).2 with
+          | .ok => ((allocateDuringFilter s (keyOf pod) resv n
+              { policy := policyOf pod, node := "", uid := pod.uid } ch.pick).1, .ok [n])
+          | e => ((allocateDuringFilter s (keyOf pod) resv n
+              { policy := policyOf pod, node := "", uid := pod.uid } ch.pick).1, .error e)
+      else (s, .ok (if hasAlloc then sinter set0 allocated else set0))
+
+/-- intersection of the node subnets of the addresses already owned (seeded on the first one) -/
+def allocatedSubnets (s : State) : List IP → List Subnet
+  | [] => []
+  | ip :: t => t.foldl (fun acc j => sinter acc (subnetsOf s.pools j)) (subnetsOf s.pools ip)
+
+/-- the requested range lists for which the key owns nothing yet -/
+def unfoundRanges (infos : List (Option IP)) (rss : List (List (Nat × Nat))) : List (List (Nat × Nat)) :=
+  (infos.zip rss).filterMap (fun x => if x.1.isNone then some x.2 else none)
+
 /-- `getSubnet(pod)` incl. `allocateDuringFilter` -/
 def getSubnet (s : State) (pod : Pod) (ch : Choice) : State × Except Res (List Subnet) :=
-  let k := keyOf pod
-  let infos := byKeyAndRanges s k pod.ranges
-  let cont := fun (rss : List (List (Nat × Nat))) (hasAlloc : Bool) (allocated : List Subnet) =>
-    let policy := policyOf pod
-    if policy ≠ 0 ∧ !supportReserve k policy then ((s, .error (.err "policy-unsupported")) : State × Except Res (List Subnet))
-    else
-      let rp := if k.isDp then getDpReplicas s k else (0, false)
-      match getAvailableSubnet s k policy rp.1 rp.2 rss with
-      | .error c => (s, .error (.err c))
-      | .ok (set0, resv) =>
-        let set1 := if hasAlloc then sinter set0 allocated else set0
-        if (resv || rp.2) && !set1.isEmpty then
-          match sminStr set1 with
-          | none => (s, .ok set1)
-          | some n =>
-            let a : Attr := { policy := policy, node := "", uid := pod.uid }
-            let r := if resv then allocateInSubnetWithKey s k.poolPrefix k n a ch.pick
-                     else allocateInSubnet s k n a ch.pick
-            match r.2 with
-            | .ok => (r.1, .ok [n])
-            | e => (r.1, .error e)
-        else (s, .ok set1)
   if pod.ranges.isEmpty then
-    match infos with
-    | [] => cont [] false []
-    | _ =>
+    match byKeyAndRanges s (keyOf pod) pod.ranges with
+    | [] => getSubnetCont s pod ch [] false []
+    | infos =>
       -- `ipInfos[0].NodeSubnets`: any owned address may be first
       match pickFirst infos ch.first with
       | none => (s, .error .inadmissible)
       | some ip => (s, .ok (subnetsOf s.pools ip))
+  else if (unfoundRanges (byKeyAndRanges s (keyOf pod) pod.ranges) pod.ranges).isEmpty then
+    (s, .ok (allocatedSubnets s ((byKeyAndRanges s (keyOf pod) pod.ranges).filterMap id)))
   else
-    let found := infos.filterMap id
-    let unfound := (infos.zip pod.ranges).filterMap (fun x => if x.1.isNone then some x.2 else none)
-    let allocated := match found with
-      | [] => []
-      | ip :: t => t.foldl (fun acc j => sinter acc (subnetsOf s.pools j)) (subnetsOf s.pools ip)
-    if unfound.isEmpty then (s, .ok allocated)
-    else cont unfound (!found.isEmpty) allocated
+    getSubnetCont s pod ch (unfoundRanges (byKeyAndRanges s (keyOf pod) pod.ranges) pod.ranges)
+      (!((byKeyAndRanges s (keyOf pod) pod.ranges).filterMap id).isEmpty)
+      (allocatedSubnets s ((byKeyAndRanges s (keyOf pod) pod.ranges).filterMap id))
 
 def filterNodes (s : State) (set : List Subnet) : List String → List String → State × List String
   | [], acc => (s, acc)
@@ -767,64 +793,77 @@ def bindLoop (s : State) (k : Key) (node : String) (a : Attr) (reservedIPs : Lis
       | e => (u.1, e)
     else bindLoop p.1 k node a reservedIPs t
 
+/-- `ipInfos[:1]` when no ranges are requested (`none` = inadmissible choice) -/
+def bindInfos (s : State) (pod : Pod) (ch : Choice) : Option (List (Option IP)) :=
+  if pod.ranges.isEmpty && !(byKeyAndRanges s (keyOf pod) pod.ranges).isEmpty then
+    (pickFirst (byKeyAndRanges s (keyOf pod) pod.ranges) ch.first).map (fun ip => [some ip])
+  else some (byKeyAndRanges s (keyOf pod) pod.ranges)
+
+/-- the allocation step of `allocateIP`: node subnet, `AllocateInSubnetsAndIPRange`, second `ByKeyAndIPRanges` -/
+def bindAlloc (s : State) (pod : Pod) (node : String) (a : Attr) (infos : List (Option IP)) (pick : Option IP) :
+    State × Res × List (Option IP) :=
+  if !(unfoundRanges infos pod.ranges).isEmpty || infos.isEmpty then
+    match (queryNodeSubnet s node).2 with
+    | none => ((queryNodeSubnet s node).1, .err "no-subnet", [])
+    | some n =>
+      ((allocateInSubnetsAndRanges (queryNodeSubnet s node).1 (keyOf pod) n (unfoundRanges infos pod.ranges) a pick).1,
+       (allocateInSubnetsAndRanges (queryNodeSubnet s node).1 (keyOf pod) n (unfoundRanges infos pod.ranges) a pick).2,
+       byKeyAndRanges (allocateInSubnetsAndRanges (queryNodeSubnet s node).1 (keyOf pod) n
+         (unfoundRanges infos pod.ranges) a pick).1 (keyOf pod) pod.ranges)
+  else (s, .ok, infos)
+
+/-- the pods/binding call: a failed attempt is retried (PollImmediate), so a single fault is absorbed; NotFound
+    queues the lister's pod object for unbinding -/
+def bindCommit (s : State) (pod : Pod) (ns name : String) (uid : Nat) (node : String) (ips : List IP) : State × Out :=
+  match (if s.api.2 then s.api.1.api.1 else s.api.1).pods.get (ns, name) with
+  | none =>
+    ({ (if s.api.2 then s.api.1.api.1 else s.api.1) with
+         events := (if s.api.2 then s.api.1.api.1 else s.api.1).events ++ [{ pod := pod }] }, Out.err "not-found")
+  | some tp =>
+    if uid ≠ 0 ∧ tp.uid ≠ uid then ((if s.api.2 then s.api.1.api.1 else s.api.1), Out.err "conflict")
+    else
+      ({ (if s.api.2 then s.api.1.api.1 else s.api.1) with
+           pods := (if s.api.2 then s.api.1.api.1 else s.api.1).pods.set (ns, name)
+             { tp with node := node, handed := ips.map (toHInfo s) } },
+       { ips := ips.map (toHInfo s) })
+
 /-- `Bind(args)`; `uid` is `args.PodUID` (the scheduler's view of the pod it binds) -/
-def bind (F : Facts) (s : State) (ns name : String) (uid : Uid) (node : String) (ch : Choice) : State × Out :=
+def bind (F : Facts) (s : State) (ns name : String) (uid : Nat) (node : String) (ch : Choice) : State × Out :=
   match s.vPods.get (ns, name) with
   | none => (s, Out.err "not-found")
   | some pod =>
     if !pod.wants then (s, Out.err "bad-input")
     else
-      let k := keyOf pod
-      let infos0 := byKeyAndRanges s k pod.ranges
-      -- `ipInfos[:1]` when no ranges are requested
-      let infos1 : Option (List (Option IP)) :=
-        if pod.ranges.isEmpty && !infos0.isEmpty then
-          (pickFirst infos0 ch.first).map (fun ip => [some ip])
-        else some infos0
-      match infos1 with
+      match bindInfos s pod ch with
       | none => (s, Out.bad)
       | some infos =>
-        let found := infos.filterMap id
-        let unfound := (infos.zip pod.ranges).filterMap (fun x => if x.1.isNone then some x.2 else none)
-        let a : Attr := { policy := policyOf pod, node := node, uid := pod.uid }
-        if F.bindChecksUID && found.any (fun ip =>
+        if F.bindChecksUID && (infos.filterMap id).any (fun ip =>
             match s.alloc.get ip with
             | some r => r.uid != 0 && r.uid != pod.uid
             | none => false) then (s, Out.err "waiting-for-delete")
         else
-          -- allocate what is missing
-          let al : State × Res × List (Option IP) :=
-            if !unfound.isEmpty || infos.isEmpty then
-              let q := queryNodeSubnet s node
-              match q.2 with
-              | none => (q.1, .err "no-subnet", [])
-              | some n =>
-                let r := allocateInSubnetsAndRanges q.1 k n unfound a ch.pick
-                (r.1, r.2, byKeyAndRanges r.1 k pod.ranges)
-            else (s, .ok, infos)
-          match al.2.1 with
+          match (bindAlloc s pod node { policy := policyOf pod, node := node, uid := pod.uid } infos ch.pick).2.1 with
           | .inadmissible => (s, Out.bad)
-          | .err c => (al.1, Out.err c)
+          | .err c => ((bindAlloc s pod node { policy := policyOf pod, node := node, uid := pod.uid } infos ch.pick).1,
+              Out.err c)
           | .ok =>
-            let ips := al.2.2.filterMap id
-            let l := bindLoop al.1 k node a found ips
-            match l.2 with
+            match (bindLoop (bindAlloc s pod node { policy := policyOf pod, node := node, uid := pod.uid } infos ch.pick).1
+                (keyOf pod) node { policy := policyOf pod, node := node, uid := pod.uid } (infos.filterMap id)
+                ((bindAlloc s pod node { policy := policyOf pod, node := node, uid := pod.uid } infos
+                  ch.pick).2.2.filterMap id)).2 with
             | .ok =>
-              let s2 := l.1
-              let hinfos := ips.map (toHInfo s2)
-              -- pods/binding: a failed attempt is retried (PollImmediate), a single fault is absorbed
-              let c := s2.api
-              let s3 := if c.2 then c.1.api.1 else c.1
-              match s3.pods.get (ns, name) with
-              | none =>
-                -- NotFound: the lister's pod object is queued for unbinding
-                ({ s3 with events := s3.events ++ [{ pod := pod }] }, Out.err "not-found")
-              | some tp =>
-                if uid ≠ 0 ∧ tp.uid ≠ uid then (s3, Out.err "conflict")
-                else
-                  ({ s3 with pods := s3.pods.set (ns, name) { tp with node := node, handed := hinfos } },
-                   { ips := hinfos })
-            | e => (l.1, { res := e })
+              bindCommit (bindLoop (bindAlloc s pod node { policy := policyOf pod, node := node, uid := pod.uid } infos
+                  ch.pick).1 (keyOf pod) node { policy := policyOf pod, node := node, uid := pod.uid }
+                  (infos.filterMap id)
+                  ((bindAlloc s pod node { policy := policyOf pod, node := node, uid := pod.uid } infos
+                    ch.pick).2.2.filterMap id)).1 pod ns name uid node
+                ((bindAlloc s pod node { policy := policyOf pod, node := node, uid := pod.uid } infos
+                  ch.pick).2.2.filterMap id)
+            | e => ((bindLoop (bindAlloc s pod node { policy := policyOf pod, node := node, uid := pod.uid } infos
+                  ch.pick).1 (keyOf pod) node { policy := policyOf pod, node := node, uid := pod.uid }
+                  (infos.filterMap id)
+                  ((bindAlloc s pod node { policy := policyOf pod, node := node, uid := pod.uid } infos
+                    ch.pick).2.2.filterMap id)).1, { res := e })
 
 /-! ## Event delivery (`event.go` loop) -/
 
@@ -884,27 +923,28 @@ def resync (F : Facts) (s : State) (order : List IP) : State × Out :=
 
 /-! ## API release (`bind.go` Release) -/
 
+/-- with a cloud provider and a recorded node: UnAssign, then clear node and uid of the key's records -/
+def releasePre (s : State) (node : String) (ip : IP) (k : Key) : State × Res :=
+  if s.provOn && node ≠ "" then
+    if !(provUnassign s node ip).2 then ((provUnassign s node ip).1, .err "provider")
+    else ((reserve (provUnassign s node ip).1 k k {}).1, okOr (reserve (provUnassign s node ip).1 k k {}).2 "store")
+  else (s, .ok)
+
 def apiRelease (F : Facts) (s : State) (ip : IP) (k : Key) : State × Out :=
-  let cur := s.alloc.get ip
-  let curKey := (cur.map (·.key)).getD Key.empty
-  if F.releaseRechecks && curKey ≠ k then
-    (s, if curKey = Key.empty then {} else Out.err "key-mismatch")
+  if F.releaseRechecks && ((s.alloc.get ip).map (·.key)).getD Key.empty ≠ k then
+    (s, if ((s.alloc.get ip).map (·.key)).getD Key.empty = Key.empty then {} else Out.err "key-mismatch")
+  else if (podRunning F s k.pod k.ns (((s.alloc.get ip).map (·.uid)).getD 0)).2 then
+    ((podRunning F s k.pod k.ns (((s.alloc.get ip).map (·.uid)).getD 0)).1, Out.err "running")
   else
-    let uid := (cur.map (·.uid)).getD 0
-    let node := (cur.map (·.node)).getD ""
-    let pr := podRunning F s k.pod k.ns uid
-    if pr.2 then (pr.1, Out.err "running")
-    else
-      let s1 := pr.1
-      let pre : State × Res :=
-        if s1.provOn && node ≠ "" then
-          let u := provUnassign s1 node ip
-          if !u.2 then (u.1, .err "provider")
-          else let c := reserve u.1 k k {}; (c.1, okOr c.2 "store")
-        else (s1, .ok)
-      match pre.2 with
-      | .ok => let r := release pre.1 k ip; (r.1, { res := r.2 })
-      | e => (pre.1, { res := e })
+    match (releasePre (podRunning F s k.pod k.ns (((s.alloc.get ip).map (·.uid)).getD 0)).1
+        (((s.alloc.get ip).map (·.node)).getD "") ip k).2 with
+    | .ok =>
+      ((release (releasePre (podRunning F s k.pod k.ns (((s.alloc.get ip).map (·.uid)).getD 0)).1
+          (((s.alloc.get ip).map (·.node)).getD "") ip k).1 k ip).1,
+       { res := (release (releasePre (podRunning F s k.pod k.ns (((s.alloc.get ip).map (·.uid)).getD 0)).1
+          (((s.alloc.get ip).map (·.node)).getD "") ip k).1 k ip).2 })
+    | e => ((releasePre (podRunning F s k.pod k.ns (((s.alloc.get ip).map (·.uid)).getD 0)).1
+          (((s.alloc.get ip).map (·.node)).getD "") ip k).1, { res := e })
 
 /-! ## Pod-IP sync (`resync.go` syncPodIPsIntoDB) -/
 
@@ -936,13 +976,13 @@ def reload (s : State) (pools : List Pool) : State × Out :=
     if !r.2 then (r.1, Out.err "store")
     else ({ r.1 with lastConf := some pools, nodeCache := [] }, {})
 
-/-- process restart: memory rebuilt from the store by `ConfigurePool(conf)`, informers re-listed,
-    queued events and caches lost -/
+/-- a fresh process: informers re-listed, queued events and caches gone -/
+def restartBase (s : State) : State :=
+  { s with events := [], nodeCache := [], lastConf := none, vPods := s.pods, vApps := s.apps, vPoolObjs := s.poolObjs }
+
+/-- process restart: memory rebuilt from the store by `ConfigurePool(conf)` -/
 def restart (s : State) : State × Out :=
-  let s1 := { s with events := [], nodeCache := [], lastConf := none,
-                     vPods := s.pods, vApps := s.apps, vPoolObjs := s.poolObjs }
-  let r := configurePool s1 s1.pools
-  (r.1, if r.2 then {} else Out.err "store")
+  ((configurePool (restartBase s) s.pools).1, if (configurePool (restartBase s) s.pools).2 then {} else Out.err "store")
 
 /-! ## Moves -/
 
@@ -974,14 +1014,18 @@ def withFaults (s : State) (fault pfault : Nat) : State :=
 
 def wantsEvent (p : Pod) : Bool := p.wants
 
+/-- a freshly created pod: pending, not scheduled, no binding annotation -/
+def newPod (uid : Nat) (ns name : String) (kind : Kind) (app pool : String) (policy : Nat)
+    (ranges : List (List (Nat × Nat))) (wants : Bool) : Pod :=
+  { ns := ns, name := name, uid := uid, kind := kind, app := app, pool := pool, policy := policy, ranges := ranges,
+    wants := wants, phase := .pending, node := "", handed := [] }
+
 def step (F : Facts) (s : State) : Move → State × Out
   | .createPod ns name kind app pool policy ranges wants =>
     if (s.pods.get (ns, name)).isSome then (s, Out.err "already-exists")
     else
-      let p : Pod := { ns := ns, name := name, uid := s.nextUid, kind := kind, app := app, pool := pool,
-                       policy := policy, ranges := ranges, wants := wants, phase := .pending, node := "",
-                       handed := [] }
-      ({ s with pods := s.pods.set (ns, name) p, nextUid := s.nextUid + 1 }, {})
+      ({ s with pods := s.pods.set (ns, name) (newPod s.nextUid ns name kind app pool policy ranges wants),
+                nextUid := s.nextUid + 1 }, {})
   | .deletePod ns name =>
     match s.pods.get (ns, name) with
     | none => (s, Out.err "not-found")
